@@ -23,7 +23,7 @@ FUNCTIONS = ['_tensordot_f2m/_fc/_nf + _meta_tensordot_*', 'fuse_legs(mode=None)
 ASSUMPTIONS = ['exact arithmetic', 'programs limited to the listed templates']
 OUTSIDE = ['programs outside the templates', 'torch backends', 'opt_einsum optimisers not available offline']
 POLICIES = ['fuse_to_matrix', 'fuse_contracted', 'no_fusion']
-TEMPLATES = ['chain', 'ncon3', 'fuse_dot_unfuse', 'transpose_add', 'dot_trace', 'dot_svd', 'dot_qr', 'unroll']
+TEMPLATES = ['chain', 'ncon3', 'fuse_dot_unfuse', 'transpose_add', 'dot_trace', 'dot_svd', 'dot_qr', 'unroll', 'dot_lazy']
 BOUNDS = {'quick': {'templates': TEMPLATES, 'policies': POLICIES, 'fusion': ['hard', 'meta', 'force hard', 'force meta'],
                     'materialisation points': 'every operand/intermediate: lazy | consume_transpose | copy', 'unroll labels': '<= 2',
                     'structures': 'catalogue (rank<=4, dims 1,2)'},
@@ -38,7 +38,7 @@ def cases(tier, seed):
     for tpl in TEMPLATES:
         fac = {'sym': SYMS, 'dtype': ['real', 'complex'], 'drop': ['none', 'some'], 'overlap': ['equal', 'subset', 'overlap']}
         if tpl == 'unroll':
-            fac = {'sym': ['U1', 'Z2', 'Z3', 'dense', 'U1xU1', 'Z2xU1'], 'dtype': ['real', 'complex'], 'which': ['contracted', 'output', 'both', 'two-contracted'],
+            fac = {'sym': ['U1', 'Z2', 'Z3', 'dense', 'U1xU1', 'Z2xU1'], 'dtype': ['real', 'complex'], 'which': ['contracted', 'output', 'both', 'two-contracted', 'two-outputs', 'all'],
                    'slicing': ['sectors', 'uniform1', 'uniform2', 'uniform3', 'intra']}
         for rep in range(reps):
             for i, row in enumerate(cat.covering(fac, seed=seed * 17 + rep * 3 + TEMPLATES.index(tpl), strength=2)):
@@ -196,16 +196,19 @@ def k_fuse_dot_unfuse(ctx, spec):
         cfg = _cfg(spec, v)
         m = _Mat(v[3])
         A, B = m(_with_cfg(a, cfg)), m(_with_cfg(b, cfg))
-        fa = m(A.fuse_legs(axes=((0, 1),) + tuple(range(2, A.ndim))))           # mode=None -> config decides
-        fb = m(B.fuse_legs(axes=((0, 1),) + tuple(range(2, B.ndim))))
-        r = yastn.tensordot(fa, fb, axes=(0, 0))
+        fa = A.fuse_legs(axes=((0, 1),) + tuple(range(2, A.ndim)))           # mode=None -> config decides
+        fb = B.fuse_legs(axes=((0, 1),) + tuple(range(2, B.ndim)))
+        # pending transposition of the fused operands: the contracted fused leg sits at different logical and native positions
+        fa = m(fa.transpose(tuple(range(1, fa.ndim)) + (0,)))
+        fb = m(fb.transpose((fb.ndim - 1,) + tuple(range(fb.ndim - 1))).transpose(tuple(range(1, fb.ndim)) + (0,)) if v[3] % 2 else fb)
+        r = yastn.tensordot(fa, fb, axes=(fa.ndim - 1, 0))
         # fuse the outputs too, then unfuse (observable after unfusing)
         if r.ndim >= 2:
             r = m(r.fuse_legs(axes=(tuple(range(r.ndim)),)))
         res.append((v, r))
         # fusion mode actually honoured
         exp_mode = v[2] or v[1]
-        ctx.check((fa.mfs[0] != (1,)) == (exp_mode == 'meta'), 'fusion-mode-honoured', (v, fa.mfs))
+        ctx.check((fa.mfs[-1] != (1,)) == (exp_mode == 'meta'), 'fusion-mode-honoured', (v, fa.mfs))
     _compare(ctx, res, 'fuse_dot_unfuse')
     return {'a': describe(a), 'b': describe(b)}
 
@@ -315,7 +318,7 @@ def k_unroll(ctx, spec):
     path, _ = yastn.get_contraction_path(*args)
     paths = [path, [(1, 2), (0, 1)], [(0, 1), (0, 1)]]
     legs = {'i': A.get_legs(0), 'j': B.get_legs(0), 'k': C.get_legs(0), 'l': C.get_legs(1).conj()}
-    which = {'contracted': ['j'], 'output': ['i'], 'both': ['j', 'l'], 'two-contracted': ['j', 'k']}[spec['which']]
+    which = {'contracted': ['j'], 'output': ['i'], 'both': ['j', 'l'], 'two-contracted': ['j', 'k'], 'two-outputs': ['i', 'l'], 'all': ['i', 'j', 'l']}[spec['which']]
     def slicing(lab):
         lg = legs[lab]
         sl = spec['slicing']
@@ -348,3 +351,51 @@ def k_unroll(ctx, spec):
     if r is not None:
         ctx.eq(reassemble(r, U), E, 'contract_with_unroll_compute_constants == ncon')
     return {'legs': L, 'unroll': which, 'slicing': spec['slicing']}
+
+
+def k_dot_lazy(ctx, spec):
+    """lazily transposed operands with several outgoing legs, contracted spaces of dimension one (and outer products), under all policies and
+    with the transposition kept lazy / consumed / copied"""
+    import yastn
+    rng = rng_of(spec)
+    symn = spec['sym']
+    cfg0 = cat.make_config(symn)
+    kc = rng.choice([0, 1, 1, 2])
+    ea, eb = rng.choice([2, 3]), rng.choice([1, 2])
+    # contracted legs: several sectors, every sector of dimension one
+    def one_leg():
+        if symn == 'dense':
+            return {'t': [[]], 'D': [1]}
+        win = cat.window(symn)
+        ts = sorted(rng.sample(win, min(len(win), rng.choice([1, 2, 3]))))
+        return {'t': [list(t) for t in ts], 'D': [1 for _ in ts]}
+    cl = [one_leg() for _ in range(kc)]
+    sa = [rng.choice([1, -1]) for _ in range(kc)]
+    ta = cat.rand_tensor_spec(rng, symn, kc + ea, fixed={i: (sa[i], cl[i]) for i in range(kc)}, dims=(2, 3) if rng.random() < 0.5 else (1, 2), nsect=(1, 2), max_size=120,
+                              dtype=spec['dtype'], drop=spec.get('drop', 'none'))
+    tb = cat.rand_tensor_spec(rng, symn, kc + eb, fixed={i: (-sa[i], cat.perturb_leg(rng, symn, cl[i], spec.get('overlap', 'equal'))) for i in range(kc)},
+                              prefer={i: rng.choice(cl[i]['t']) for i in range(kc)}, dims=(1, 2), nsect=(1, 2), max_size=60, dtype=spec['dtype'])
+    if ta is None or tb is None:
+        ctx.skip('none')
+    for i in range(kc):        # keep dims one on the partner too
+        tb['legs'][i]['D'] = [1 for _ in tb['legs'][i]['D']]
+    a = cat.build(ctx, ta, 'a', config=cfg0)
+    b = cat.build(ctx, tb, 'b', config=cfg0)
+    pa = list(range(a.ndim))[::-1] if rng.random() < 0.5 else rng.sample(range(a.ndim), a.ndim)
+    pb = rng.sample(range(b.ndim), b.ndim)
+    inva, invb = {p: i for i, p in enumerate(pa)}, {p: i for i, p in enumerate(pb)}
+    axa, axb = tuple(inva[i] for i in range(kc)), tuple(invb[i] for i in range(kc))
+    res = []
+    for pol in POLICIES:
+        for state in ('lazy', 'consumed', 'copied'):
+            cfg = cat.make_config(symn, tensordot_policy=pol)
+            A, B = a._replace(config=cfg).transpose(tuple(pa)), b._replace(config=cfg).transpose(tuple(pb))
+            if state == 'consumed':
+                A, B = A.consume_transpose(), B.consume_transpose()
+            elif state == 'copied':
+                A, B = A.copy(), B.copy()
+            r = yastn.tensordot(A, B, axes=(axa, axb))
+            wellformed(ctx, r, f'dot_lazy[{pol},{state}]', check_dense_zero=False)
+            res.append(((pol, state), r))
+    _compare(ctx, res, f'tensordot (contracted dims one, {kc} contracted legs)')
+    return {'a': describe(a), 'b': describe(b), 'perm': (pa, pb)}
